@@ -133,6 +133,11 @@ func init() {
 			h("cont.H_Dispose", dsp(0, 2, 3, 0, 1, 1, 0), dsp(0, 2, 3, 1, 1, 1, 0), append([]string{"build_failed"}, dspCov...), 0, dspDesc),
 		}, Own: []string{"C15.", "C10.leaked", "C10.closed_twice", "C10.failed_build_leak", "C10.failed_scope_leak"}},
 	)
+	properties = append(properties,
+		propertySpec{ID: "C17", Harnesses: []harnessSpec{
+			h("cont.H_Registry", map[string]int{"L": 2, "order_schemes": 1}, map[string]int{"L": 3, "order_schemes": 1}, []string{"rejected_add", "rejected_second_identity", "remove", "remove_keyed", "snapshot"}, 30, "history of L operations {Add directly, Add through a module, Remove, RemoveKeyed, Build} over a pool of two concrete types, an auxiliary type and an interface, keys {nil,k1}, group g1, six registration forms incl. multi-output ones that collide on their second identity; after every step Contains / ContainsKeyed / Count / ToSlice vs a reference registry; a final Build must use exactly the registry (resolvability per identity, group sizes, no constructor of a removed singleton runs); every provider built on the way is probed again after the later edits"),
+		}},
+	)
 	hc := h("cont.H_Conc", conc(1), conc(1), []string{"both_done"}, 10, concDesc)
 	hcb := h("cont.H_CloseInCallback", map[string]int{"order_schemes": 1}, map[string]int{"order_schemes": 2}, []string{"callback_closed"}, 10, cbDesc)
 	properties = append(properties,
